@@ -121,6 +121,65 @@ theorem reject_iff (max : Int) (s : Sel) :
   rw [validate_eq max s, AllBounded, ← all_limitOk_iff]
   cases (limits s).all (limitOk max) <;> simp
 
+/-! ### every encoding the parser accepts, not only the builder's
+
+A remote peer chooses the selector *node*.  `Parses n s` (GS/Model/Selector.lean, `parsesB`) says
+go-ipld-prime's ParseSelector reads `n` as the specification `s`: clause bodies with their entries
+in any order and with unknown extra entries, `{"none": <anything>}` limits, arbitrary content in
+matcher / recursive-edge bodies …  The relation is executable and is compared with the real
+ParseSelector on every `alt` op of the correspondence stream. -/
+
+/-- the visit callback cannot tell a limit node the parser accepts from the canonical one -/
+theorem callback_parsesLimit (max : Int) (l : Limit) (ln : Node) (h : parsesLimitB l ln = true) :
+    callback max ln = callback max (encLimit l) := by
+  cases hc : clause ln with
+  | none => cases l <;> simp [parsesLimitB, hc] at h
+  | some kv =>
+    obtain ⟨k, v⟩ := kv
+    cases l with
+    | none =>
+      simp only [parsesLimitB, hc, beq_iff_eq] at h
+      have hn : (lookupAction "none" callbackCases).getD callbackDefault = Action.reject := rfl
+      rw [clause_eq hc, h]
+      simp [callback, encLimit, hn, runAction]
+    | depth d =>
+      cases v <;> simp [parsesLimitB, hc] at h
+      rw [clause_eq hc, h.1, h.2]; rfl
+
+theorem verdictOf_congr (max : Int) (ab : Bool) :
+    ∀ (ns ms : List Node), ns.map (callback max) = ms.map (callback max) →
+      verdictOf max ab ns = verdictOf max ab ms
+  | [], [], _ => rfl
+  | [], _ :: _, h => by simp at h
+  | _ :: _, [], h => by simp at h
+  | n :: ns, m :: ms, h => by
+    simp only [List.map_cons, List.cons.injEq] at h
+    simp only [verdictOf, h.1, verdictOf_congr max ab ns ms h.2]
+
+/-- **C08 for every node the parser accepts.**  If ParseSelector reads `n` as `s`, the validator
+    treats `n` exactly as it treats the builder's encoding of `s` … -/
+theorem validate_parses (max : Int) (n : Node) (s : Sel) (h : Parses n s) :
+    validate max n = validate max (enc s) := by
+  have hn := walk_parses genFields covers (callback max) (callback_parsesLimit max) s n h
+  have he := walk_parses genFields covers (callback max) (callback_parsesLimit max) s (enc s) (parsesB_enc s)
+  unfold validate
+  rw [validatorSel_eq]
+  simp only [hn.1, he.1]
+  exact verdictOf_congr max false _ _ (hn.2.trans he.2.symm)
+
+/-- … hence accepts it iff every recursion of `s` is limited to depth ≤ max, and otherwise
+    returns ErrInvalidLimit.  (`wf s`, with `Parses n s`, is "ParseSelector(n) succeeds".) -/
+theorem iff_parses (max : Int) (n : Node) (s : Sel) (h : Parses n s) :
+    validate max n = Verdict.ok ↔ AllBounded max s := by
+  rw [validate_parses max n s h]; exact iff_all max s
+
+theorem reject_parses (max : Int) (n : Node) (s : Sel) (h : Parses n s) :
+    validate max n = Verdict.invalidLimit ↔ ¬ AllBounded max s := by
+  rw [validate_parses max n s h]; exact reject_iff max s
+
+/-- the builder's node is one of the accepted encodings (non-vacuity of `Parses`) -/
+theorem parses_enc (s : Sel) : Parses (enc s) s := parsesB_enc s
+
 /-! ### default wiring (facts extracted from impl/graphsync.go and preparequery.go) -/
 
 /-- **C08, wiring part.**  impl.New registers the validator by default with
@@ -165,6 +224,21 @@ theorem default_passes (s : Sel) : defaultResponse (enc s) = none ↔ AllBounded
   · have := (reject_iff 100 s).2 h
     simp [this, prepareQueryChain, firstAction, condHolds, h]
 
+/-- the responder decision for every node the parser reads as `s` -/
+theorem default_rejects_parses (n : Node) (s : Sel) (h : Parses n s) :
+    defaultResponse n = some (.finishWithError "RequestRejected") ↔ ¬ AllBounded 100 s := by
+  have : defaultResponse n = defaultResponse (enc s) := by
+    unfold defaultResponse defaultHookResult
+    rw [validate_parses registeredDepth n s h]
+  rw [this]; exact default_rejects s
+
+theorem default_passes_parses (n : Node) (s : Sel) (h : Parses n s) :
+    defaultResponse n = none ↔ AllBounded 100 s := by
+  have : defaultResponse n = defaultResponse (enc s) := by
+    unfold defaultResponse defaultHookResult
+    rw [validate_parses registeredDepth n s h]
+  rw [this]; exact default_passes s
+
 /-! ### non-vacuity and boundary (tests of the statements on concrete selectors) -/
 
 /-- a well-formed selector nesting a recursion under interpret-as inside a union inside another
@@ -180,4 +254,19 @@ example : validate 100 (enc (exDeep 101)) = Verdict.invalidLimit :=
 example : validate 100 (enc (.interpretAs "unixfs" (.recursive .none (.all .edge) none))) = Verdict.invalidLimit :=
   (reject_iff 100 _).2 (by simp [AllBounded, limits])
 
+/-- a non-canonical encoding: entries shuffled, unknown entries (one of them an unbounded recursion
+    where no selector is expected), `{"none": 7}` as limit — parsed as interpret-as over an
+    unbounded recursion, and rejected -/
+def exAlt : Node :=
+  .map [("~", .map [("zz", .map [("R", .map [("l", .map [("none", .map [])]), (":>", .map [("@", .map [])])])]),
+                    (">", .map [("R", .map [(":>", .map [("a", .map [("x", .null), (">", .map [("@", .map [("q", .int 1)])])])]),
+                                           ("l", .map [("none", .int 7)])])]),
+                    ("as", .str "unixfs")])]
+
+def exAltSel : Sel := .interpretAs "unixfs" (.recursive .none (.all .edge) none)
+example : Parses exAlt exAltSel := by unfold Parses; decide
+example : validate 100 exAlt = Verdict.invalidLimit :=
+  (reject_parses 100 exAlt exAltSel (by unfold Parses; decide)).2 (by simp [AllBounded, exAltSel, limits])
+
 end GS.C08
+
